@@ -1,6 +1,8 @@
 package rules
 
 import (
+	"fmt"
+	"go/token"
 	"go/types"
 	"sort"
 
@@ -20,8 +22,8 @@ func runC18(c *Ctx) {
 	bm := func(f string) *types.Var { return c.field("neutrino", "blockManager", f) }
 	csf := func(f string) *types.Var { return c.field("neutrino", "ChainService", f) }
 	preStart := map[string]string{
-		"neutrino.newBlockManager":                    "constructor: the block manager is not yet published",
-		"(*neutrino.blockManager).ResetHeaderState":   "pre-start: called from ChainService.Start before blockManager.Start",
+		"neutrino.newBlockManager":                  "constructor: the block manager is not yet published",
+		"(*neutrino.blockManager).ResetHeaderState": "pre-start: called from ChainService.Start before blockManager.Start",
 	}
 
 	c.rule("C18.L1", "guarded-by table of the root module: each tabled field is accessed only with its mutex held (exclusively for writes); constructors and tabled pre-start functions are exempt; lock-free reads are allowed only in the field's single writer goroutine", func() {
@@ -71,9 +73,9 @@ func runC18(c *Ctx) {
 	c.rule("C18.R1", "goroutine ownership: the block manager's header-sync state is touched only from the blockHandler goroutine (and pre-start functions); the peer state and subscriber lists only from peerHandler; the subscription registry only from subscriptionHandler", func() {
 		const bh = "(*neutrino.blockManager).blockHandler"
 		allowedBM := map[string]string{
-			"neutrino.NewChainService":        "constructs the block manager before anything runs",
-			"(*neutrino.ChainService).Start":  "calls ResetHeaderState before blockManager.Start",
-			"neutrino.newBlockManager":        "constructor",
+			"neutrino.NewChainService":                  "constructs the block manager before anything runs",
+			"(*neutrino.ChainService).Start":            "calls ResetHeaderState before blockManager.Start",
+			"neutrino.newBlockManager":                  "constructor",
 			"(*neutrino.blockManager).ResetHeaderState": "pre-start (exported for the import path)",
 		}
 		for _, f := range []string{"headerList", "reorgList", "nextCheckpoint", "startHeader"} {
@@ -87,10 +89,10 @@ func runC18(c *Ctx) {
 			c.ownedBy(c.field("neutrino", "peerState", f), ph, allowedCS, 2)
 		}
 		c.ownedBy(c.field("blockntfns", "SubscriptionManager", "subscribers"), "(*blockntfns.SubscriptionManager).subscriptionHandler", map[string]string{
-			"blockntfns.NewSubscriptionManager":         "constructor",
-			"(*blockntfns.SubscriptionManager).Stop":    "after joining the handler (C11.R1)",
-			"(*neutrino.ChainService).Stop":             "calls SubscriptionManager.Stop",
-			"neutrino.NewChainService":                  "constructs the manager",
+			"blockntfns.NewSubscriptionManager":      "constructor",
+			"(*blockntfns.SubscriptionManager).Stop": "after joining the handler (C11.R1)",
+			"(*neutrino.ChainService).Stop":          "calls SubscriptionManager.Stop",
+			"neutrino.NewChainService":               "constructs the manager",
 		}, 4)
 	})
 
@@ -127,6 +129,59 @@ func runC18(c *Ctx) {
 			sort.Strings(bad)
 			c.verdict(len(bad) == 0 && n >= 1, name+" | foreign-goroutine closures capture no loop-owned state", c.P.Pos(top.Pos()), "captures are channels, scalars, the manager", join(bad)+": that state is mutated by the owning loop without synchronisation, so the other goroutine races with it", sites...)
 		}
+	})
+	c.rule("C18.R3", "no unsynchronised container shared with a spawned goroutine: wherever a module function starts a goroutine from a function literal that captures one of its local map or slice variables and uses it, the spawning function does not write that container (map assignment, delete, element store, re-assignment) at any point reachable after the go statement (later loop iterations included) unless both sides hold a common mutex", func() {
+		n := 0
+		var bad, sites []string
+		for _, f := range c.P.Funcs {
+			f := f
+			ir.Instrs(f, func(in ssa.Instruction) {
+				g, ok := in.(*ssa.Go)
+				if !ok {
+					return
+				}
+				cl, ok := g.Call.Value.(*ssa.MakeClosure)
+				if !ok {
+					return
+				}
+				target := cl.Fn.(*ssa.Function)
+				for i, b := range cl.Bindings {
+					pt, ok := b.Type().Underlying().(*types.Pointer)
+					if !ok {
+						continue
+					}
+					switch pt.Elem().Underlying().(type) {
+					case *types.Map, *types.Slice:
+					default:
+						continue
+					}
+					if _, isAlloc := b.(*ssa.Alloc); !isAlloc {
+						if _, isFV := b.(*ssa.FreeVar); !isFV {
+							continue
+						}
+					}
+					// used by the goroutine (or a closure nested in it)?
+					used := cellUsedIn(target, target.FreeVars[i])
+					if len(used) == 0 {
+						continue
+					}
+					n++
+					sites = append(sites, c.at(in)+" captures "+target.FreeVars[i].Name())
+					// writes by the spawner reachable after the go statement
+					ir.WalkAfter(in, nil, func(x ssa.Instruction) bool {
+						if w := containerWrite(x, b); w != "" {
+							if len(c.commonLock(f, x, target, used[0])) == 0 {
+								bad = append(bad, fmt.Sprintf("%s: goroutine started at %s uses %s (%s) while the spawning function %s it at %s", c.nm(f), c.at(in), target.FreeVars[i].Name(), c.at(used[0]), w, c.at(x)))
+							}
+						}
+						return true
+					})
+				}
+			})
+		}
+		sort.Strings(bad)
+		bad = uniq(bad)
+		c.verdict(len(bad) == 0, "module | local containers shared with spawned goroutines are not written afterwards", "-", fmt.Sprintf("%d goroutine closure(s) use a captured local map/slice; none is written by its spawner after the go statement", n), join(bad), sites...)
 	})
 }
 
@@ -190,4 +245,75 @@ func ownedBinding(b ssa.Value, in *ssa.Function, top *ssa.Function) bool {
 		}
 	}
 	return false
+}
+
+// cellUsedIn: instructions in fn (or closures nested in it) that load the
+// captured cell fv.
+func cellUsedIn(fn *ssa.Function, fv *ssa.FreeVar) []ssa.Instruction {
+	var out []ssa.Instruction
+	for _, r := range ir.Refs(fv) {
+		switch x := r.(type) {
+		case *ssa.UnOp:
+			out = append(out, x)
+		case *ssa.Store:
+			out = append(out, x)
+		case *ssa.MakeClosure:
+			inner := x.Fn.(*ssa.Function)
+			for i, b := range x.Bindings {
+				if b == ssa.Value(fv) {
+					out = append(out, cellUsedIn(inner, inner.FreeVars[i])...)
+				}
+			}
+		}
+	}
+	return out
+}
+
+// containerWrite: x mutates the map/slice held in cell (returns a verb).
+func containerWrite(x ssa.Instruction, cell ssa.Value) string {
+	loadsCell := func(v ssa.Value) bool {
+		u, ok := v.(*ssa.UnOp)
+		return ok && u.Op == token.MUL && u.X == cell
+	}
+	switch y := x.(type) {
+	case *ssa.MapUpdate:
+		if loadsCell(y.Map) {
+			return "assigns into"
+		}
+	case *ssa.Call:
+		if b, ok := y.Call.Value.(*ssa.Builtin); ok && (b.Name() == "delete" || b.Name() == "clear") && loadsCell(y.Call.Args[0]) {
+			return "deletes from"
+		}
+	case *ssa.Store:
+		if y.Addr == cell {
+			return "re-assigns"
+		}
+		if ia, ok := y.Addr.(*ssa.IndexAddr); ok && loadsCell(ia.X) {
+			return "stores an element of"
+		}
+	}
+	return ""
+}
+
+// commonLock: mutexes held both at instruction a in fa and at b in fb.
+func (c *Ctx) commonLock(fa *ssa.Function, a ssa.Instruction, fb *ssa.Function, b ssa.Instruction) []string {
+	ha := c.locksetOf(fa, nil).mustHold[a]
+	hb := c.locksetOf(fb, nil).mustHold[b]
+	var out []string
+	for k := range ha {
+		if _, ok := hb[k]; ok {
+			out = append(out, k.String())
+		}
+	}
+	return out
+}
+
+func uniq(ss []string) []string {
+	var out []string
+	for i, x := range ss {
+		if i == 0 || x != ss[i-1] {
+			out = append(out, x)
+		}
+	}
+	return out
 }
